@@ -1,6 +1,265 @@
 package c10
 
-import "verif/report"
+import (
+	"fmt"
+	"net"
+	"sort"
+	"strings"
+	"time"
 
-func runSched(run *report.Run)                          {}
-func replaySched(run *report.Run, v report.Violation) int { return 0 }
+	"verif/report"
+	"verif/sched"
+)
+
+// Engine B scenarios: small thread sets with subscribers forced to collide.
+// Each thread op is "A<i>" (AllocateNAT) or "D<i>" (DeallocateNAT); pre is a
+// sequential prefix executed before the threads start.
+type scen struct {
+	name    string
+	c       cfg
+	pre     []string
+	threads [][]string
+}
+
+func scenarios(thorough bool) []scen {
+	one := cfg{"singleblock-2ip", 1024, 1031, 4, 2, 4, true} // 2 blocks per IP, 2 IPs
+	tiny := cfg{"nondividing-1ip", 1000, 1009, 3, 1, 4, false}
+	s := []scen{
+		{"A0|A0", one, nil, [][]string{{"A0"}, {"A0"}}},
+		{"A0|A1", one, nil, [][]string{{"A0"}, {"A1"}}},
+		{"A0|A1 last block", tiny, []string{"A2", "A3"}, [][]string{{"A0"}, {"A1"}}},
+		{"A2|D0", one, []string{"A0", "A1"}, [][]string{{"A2"}, {"D0"}}},
+		{"D0|D0", one, []string{"A0", "A1"}, [][]string{{"D0"}, {"D0"}}},
+		{"A0|D0", one, []string{"A0"}, [][]string{{"A0"}, {"D0"}}},
+		{"D0,A0|A2", tiny, []string{"A0", "A1"}, [][]string{{"D0", "A0"}, {"A2"}}},
+		{"A2|D0|A3", tiny, []string{"A0", "A1"}, [][]string{{"A2"}, {"D0"}, {"A3"}}},
+	}
+	if thorough {
+		s = append(s,
+			scen{"A0|A0|A0", one, nil, [][]string{{"A0"}, {"A0"}, {"A0"}}},
+			scen{"A0,D0|A0,D0", one, nil, [][]string{{"A0", "D0"}, {"A0", "D0"}}},
+			scen{"D0,A2|D1,A3", tiny, []string{"A0", "A1", "A2"}, [][]string{{"D0", "A2"}, {"D1", "A3"}}},
+		)
+	}
+	return s
+}
+
+type call struct {
+	th   int
+	op   string
+	res  string
+	done bool
+}
+
+type schedState struct {
+	s     *sys
+	calls []*call
+}
+
+func doOp(s *sys, op string) string {
+	var i int
+	fmt.Sscanf(op[1:], "%d", &i)
+	if op[0] == 'A' {
+		a, err := s.m.AllocateNAT(subIP(i))
+		if err != nil {
+			return "err"
+		}
+		return fmt.Sprintf("%s:%d-%d", a.PublicIP, a.PortStart, a.PortEnd)
+	}
+	if err := s.m.DeallocateNAT(subIP(i)); err != nil {
+		return "err"
+	}
+	return "ok"
+}
+
+func (sc scen) scenario() *sched.Scenario {
+	return &sched.Scenario{
+		Name: sc.name,
+		Setup: func(x *sched.Exec) {
+			st := &schedState{s: newSys(sc.c)}
+			x.Data = st
+			for _, op := range sc.pre {
+				doOp(st.s, op)
+			}
+			for ti, ops := range sc.threads {
+				ti, ops := ti, ops
+				x.Thread(fmt.Sprintf("T%d", ti), func() {
+					for _, op := range ops {
+						c := &call{th: ti, op: op}
+						st.calls = append(st.calls, c)
+						c.res = doOp(st.s, op)
+						c.done = true
+						x.Obs("T%d:%s=%s", ti, op, c.res)
+					}
+				})
+			}
+		},
+		Check: func(x *sched.Exec) []sched.Viol { return checkSched(sc, x.Data.(*schedState)) },
+	}
+}
+
+// checkSched: end-state invariants + same-subscriber agreement + conservation probe.
+func checkSched(sc scen, st *schedState) []sched.Viol {
+	var vs []sched.Viol
+	add := func(kind, site, f string, a ...any) {
+		vs = append(vs, sched.Viol{Kind: kind, Site: site, Detail: fmt.Sprintf(f, a...)})
+	}
+	m := st.s.m
+	// which subscribers were the target of a Deallocate in the concurrent part
+	dealloc := map[int]bool{}
+	allocRes := map[int][]string{}
+	for _, c := range st.calls {
+		var i int
+		fmt.Sscanf(c.op[1:], "%d", &i)
+		if c.op[0] == 'D' {
+			dealloc[i] = true
+		} else if c.res != "err" {
+			allocRes[i] = append(allocRes[i], c.res)
+		}
+	}
+	live := map[int]block{}
+	for i := 0; i < sc.c.subs; i++ {
+		if g := m.GetAllocation(subIP(i)); g != nil {
+			live[i] = block{g.PublicIP.String(), int(g.PortStart), int(g.PortEnd)}
+		}
+	}
+	for i, rs := range allocRes {
+		if dealloc[i] {
+			continue
+		}
+		for _, r := range rs {
+			if r != rs[0] {
+				add("stability", "AllocateNAT", "concurrent AllocateNAT calls for subscriber %d returned different blocks %v", i, rs)
+			}
+		}
+		lb, ok := live[i]
+		if !ok {
+			add("stability", "GetAllocation", "subscriber %d was allocated %v and never released, but has no allocation", i, rs)
+		} else if got := fmt.Sprintf("%s:%d-%d", lb.pub, lb.start, lb.end); got != rs[0] {
+			add("stability", "GetAllocation", "subscriber %d was returned %s but holds %s", i, rs[0], got)
+		}
+	}
+	ids := []int{}
+	for i := range live {
+		ids = append(ids, i)
+	}
+	sort.Ints(ids)
+	for _, i := range ids {
+		b := live[i]
+		if b.start < sc.c.start || b.end > sc.c.end || b.end-b.start+1 != sc.c.per {
+			add("range", "AllocateNAT", "subscriber %d block %v violates range/size", i, b)
+		}
+		for _, j := range ids {
+			if j > i && b.pub == live[j].pub && b.start <= live[j].end && live[j].start <= b.end {
+				add("overlap", "AllocateNAT", "subscribers %d %v and %d %v overlap", i, b, j, live[j])
+			}
+		}
+	}
+	// pool counters equal the truth
+	perPool := map[string]int{}
+	for _, b := range live {
+		perPool[b.pub]++
+	}
+	for _, pe := range m.GetPoolStats() {
+		if pe.Subscribers != perPool[pe.PublicIP.String()] {
+			add("count", "GetPoolStats", "public %s counts %d subscribers, %d blocks are live", pe.PublicIP, pe.Subscribers, perPool[pe.PublicIP.String()])
+		}
+	}
+	if len(vs) > 0 {
+		return vs
+	}
+	// conservation probe: fresh subscribers allocate until refusal; every block distinct, total = capacity
+	capacity := sc.c.publics * ((sc.c.end - sc.c.start + 1) / sc.c.per)
+	all := []block{}
+	for _, b := range live {
+		all = append(all, b)
+	}
+	for k := 0; k < capacity+2; k++ {
+		a, err := m.AllocateNAT(net.IPv4(100, 64, 1, byte(k)))
+		if err != nil {
+			break
+		}
+		nb := block{a.PublicIP.String(), int(a.PortStart), int(a.PortEnd)}
+		for _, o := range all {
+			if o.pub == nb.pub && o.start <= nb.end && nb.start <= o.end {
+				add("overlap", "AllocateNAT", "probe allocation %v overlaps live %v", nb, o)
+			}
+		}
+		if nb.start < sc.c.start || nb.end > sc.c.end {
+			add("range", "AllocateNAT", "probe allocation %v outside range", nb)
+		}
+		all = append(all, nb)
+	}
+	if len(all) != capacity {
+		add("count", "AllocateNAT", "after the concurrent phase %d blocks could be held in total, capacity is %d", len(all), capacity)
+	}
+	return vs
+}
+
+func runSched(run *report.Run) {
+	bound := 2
+	if run.Thorough() {
+		bound = 3
+	}
+	for _, sc := range scenarios(run.Thorough()) {
+		name := "sched:" + sc.name + "[" + sc.c.name + "]"
+		if !run.WantPart(name) {
+			continue
+		}
+		e := &sched.Explorer{Bound: bound, Budget: 5 * time.Minute}
+		res := e.Explore(sc.scenario())
+		run.AddPart(report.Part{Name: name, Engine: "B:sched-dfs", Bound: fmt.Sprintf("preemptions<=%d completed=%d maxpoints=%d", bound, res.Bound, res.MaxPoints),
+			Executions: res.Executions, Outcomes: int64(len(res.Outcomes)), Exhaustive: res.Exhaustive, States: int64(len(res.Outcomes))})
+		for _, f := range res.Failures {
+			// determinism: the same schedule must produce the same observations twice
+			x1 := sched.RunOnce(sc.scenario(), f.Choices)
+			x2 := sched.RunOnce(sc.scenario(), f.Choices)
+			if strings.Join(x1.Log, "|") != strings.Join(x2.Log, "|") || strings.Join(x1.Log, "|") != strings.Join(f.Log, "|") {
+				run.HarnessError("non-deterministic replay of schedule in " + name)
+				continue
+			}
+			for _, v := range f.Viols {
+				tr := append([]string{"pre=" + strings.Join(sc.pre, ",")}, f.Schedule...)
+				run.Violation(report.Violation{Part: name, Kind: v.Kind, Site: v.Site, Detail: v.Detail + " | observations: " + strings.Join(f.Log, " "), Config: sc.c.name, Trace: tr,
+					Extra: map[string]any{"choices": f.Choices}})
+			}
+		}
+		if len(res.Failures) == 0 {
+			var o []string
+			for k := range res.Outcomes {
+				o = append(o, k)
+			}
+			sort.Strings(o)
+			run.Sample(map[string]any{"part": name, "executions": res.Executions, "outcomes": o})
+		}
+	}
+}
+
+func replaySched(run *report.Run, v report.Violation) int {
+	for _, sc := range scenarios(true) {
+		if "sched:"+sc.name+"["+sc.c.name+"]" != v.Part {
+			continue
+		}
+		var choices []int
+		if cs, ok := v.Extra["choices"].([]any); ok {
+			for _, c := range cs {
+				choices = append(choices, int(c.(float64)))
+			}
+		}
+		x := sched.RunOnce(sc.scenario(), choices)
+		vs := checkSched(sc, x.Data.(*schedState))
+		if x.PanicText != "" {
+			vs = append(vs, sched.Viol{Kind: "panic", Detail: x.PanicText})
+		}
+		for _, f := range vs {
+			fmt.Printf("VIOLATION property=C10 replay=%s\n  kind=%s site=%s detail=%s\n  observations: %s\n", *report.FlagReplay, f.Kind, f.Site, f.Detail, strings.Join(x.Log, " "))
+		}
+		if len(vs) > 0 {
+			return 1
+		}
+		fmt.Println("replay: no violation")
+		return 0
+	}
+	fmt.Println("HARNESS-ERROR unknown scenario", v.Part)
+	return 2
+}
